@@ -128,8 +128,11 @@ Bases(c) ==
   ELSE {<<>>} \cup {<<b>> : b \in others}
        \cup {<<q[1], q[2]>> : q \in {r \in others \X others : r[1] # r[2]}}
 
+(* a class name is defined once per program: a stub cannot express two different classes of one   *)
+(* name (an earlier class used as a base of a later one and then rebound)                        *)
+FreshCls == ClsNames \ Names("cls")
 Class ==
-  \E c \in {Pick(ClsNames)}, n \in {Pick(0 .. 1)}, qa \in {Pick(0 .. 1)}, qi \in {Pick(0 .. 2)},
+  \E c \in {Pick(FreshCls)}, n \in {Pick(0 .. 1)}, qa \in {Pick(0 .. 1)}, qi \in {Pick(0 .. 2)},
      qm \in {Pick(0 .. 2)} :
    \E bases \in {Pick(Bases(c))} :
     /\ Emit(<<"class", c, bases,
@@ -162,7 +165,7 @@ Next ==
                [] k = "try" -> Try
                [] k = "def" -> Def
                [] k = "lambda" -> Lambda
-               [] k = "class" -> Class
+               [] k = "class" -> IF FreshCls # {} THEN Class ELSE Assign
 
 Spec == Init /\ [][Next]_vars
 
